@@ -78,6 +78,18 @@ fn flatten_closure(m: &Module, idx: usize, out: &mut std::collections::BTreeSet<
             }
         }
     }
+    // (the content of a newtype variant of an internally tagged enum is merged into the object too)
+    if let Body::Enum(vs) = &m.types[idx].body {
+        if m.types[idx].attrs.repr() == typegen::Repr::Internal {
+            for v in vs {
+                if let typegen::VBody::Newtype(f) = &v.body {
+                    if let Some(i) = typegen::flatten_target(&f.ty) {
+                        flatten_closure(m, i, out);
+                    }
+                }
+            }
+        }
+    }
 }
 
 
